@@ -62,7 +62,12 @@ def check(tier):
     nspec = 12 if tier == "quick" else 30
     # identifiers and token names that are prefixes or extensions of the keywords and of the directive names: valid names, every one
     KEYWORDISH = ["g", "gr", "gra", "gram", "gramm", "gramma", "grammars", "grammar_x", "left", "none", "righ"]
-    keyword_specs = ["grammar k; s = %s; %s = \"a\";" % (w, w) for w in KEYWORDISH] + \
+    # block comments closed by a run of one, two, three, four stars, a `/**/`, stars inside: a comment must end where the documentation
+    # says it ends, or the next error is reported somewhere else (or swallowed)
+    comment_specs = ["grammar c;\n/** tokens **/\na = \"x\";\n/* rules */\nb = \"y\";", "grammar c;\n/**** banner ****/\na = \"x\";",
+                     "grammar c;\n/* note **/\na = \"x\";", "grammar c;\n/**/ a = \"x\"; /***/ b = a; /* * / ** /*/ c = b;",
+                     "grammar c; // line /* not open\na = \"x\"; /* (item)*) and/or **) */ b = a;"]
+    keyword_specs = comment_specs + ["grammar k; s = %s; %s = \"a\";" % (w, w) for w in KEYWORDISH] + \
                     ["grammar k; %s = \"a\" | %s \"b\";" % (w, w) for w in KEYWORDISH[:7]]
     specs = list(L.FIXTURE_SPECS) + keyword_specs + [L.gen_spec(rng, ndecl=rng.randint(1, 4)) for _ in range(nspec)]
     ref0 = docref.build_reference()
@@ -84,7 +89,7 @@ def check(tier):
         if end == "eof" and kinds and g.earley(kinds)[0]:
             valid.append((sp, kinds))
     # the keyword-like names must take part in the text-level sweep below
-    valid.sort(key=lambda v: 0 if v[0] in keyword_specs[:3] + keyword_specs[5:6] else 1)
+    valid.sort(key=lambda v: 0 if v[0] in comment_specs[:3] + keyword_specs[5:8] + keyword_specs[10:11] else 1)
     # ---- token level: every single-token insertion, deletion, replacement and truncation at every position
     seqs = []
     allk = list(T.terms)
